@@ -275,3 +275,124 @@ def confirm(prop, v):
             if status == 'not_reproduced': status = 'unreachable'
         elif bad: status = 'reproduced'
     return status, detail
+
+
+def run_clone_from_job(prog, job):
+    """dst.clone_from(&src) for two independent symbolic INV arenas (M and N slots): dst becomes field-wise equal to src, src is
+    untouched, eq says true; a later removal in dst touches nothing but the removed node (C08) and get_node_id_at on dst
+    answers as for src (C11). A crate that does not define clone_from uses core's default (`*self = source.clone()`)."""
+    t0 = time.time()
+    M, N = job['M'], job['N']
+    prefixes = tuple(p + '.' for p in job['props'])
+    res = new_result(job)
+    has_own = any(t == 'Clone' for (t, f) in prog.methods.get(('Arena', 'clone_from'), []))
+    eng = Engine(prog, max_steps=60000)
+    D = SymArena(M, pfx='d_'); A = SymArena(N)
+    for c in D.inv() + A.inv(): eng.solver.add(c)
+    if eng.solver.check() != z3.sat:
+        res['vacuous'] = True; return res
+    st = State()
+    dcell = st.new_cell(D.value(spare=N + 2)); acell = st.new_cell(A.value())
+    src = View(A.value())
+    mv = lambda m, failed: {'kind': 'custom', 'module': 'values', 'confirm': 'confirm_clone_from', 'checks': failed, 'op': 'clone_from', 'N': N, 'cfg': 'dev',
+                            'pre': A.model_dict(m), 'dst': D.model_dict(m), 'role': 'clone_from', 'args': {}}
+    if has_own: fn = find_trait_fn(prog, 'Arena', 'clone_from', 'Clone')
+    else: fn = prog.free.get('default_clone_from')
+    if fn is None: raise Unsupported('no clone_from')
+    eq = find_trait_fn(prog, 'Arena', 'eq', 'PartialEq')
+    for o in call_all(eng, st, fn, [Ref(dcell, ()), Ref(acell, ())]):
+        res['paths'] += 1; res['steps'] += o.state.steps
+        if o.kind != 'return':
+            check_obligations(eng, list(o.state.pc), [('%s.clone_from_no_panic' % p_, F_) for p_ in job['props']], prefixes, res, mv); continue
+        s = o.state
+        Dv = View(s.store[dcell]); Sv = View(s.store[acell])
+        ob = specs.arena_equal(src, Dv, 'C13.clone_from_equal') + specs.arena_equal(src, Sv, 'C13.clone_from_leaves_source')
+        check_obligations(eng, list(s.pc), ob, prefixes, res, mv)
+        res['nontrivial'] += 1
+        for o2 in call_all(eng, s, eq, [Ref(dcell, ()), Ref(acell, ())]):
+            res['paths'] += 1
+            check_obligations(eng, list(o2.state.pc), [('C13.eq_after_clone_from', zb(o2.value) if o2.kind == 'return' else F_)], prefixes, res, mv)
+        if Dv.N != N: continue
+        # C11: positions of dst answer as positions of src
+        pos = z3.BitVec('pos', 64)
+        s1 = s.copy(); s1.pc.append(pos != 0); s1.model = None
+        livearr = [src.live(i) for i in range(N)]
+        for o3 in call_all(eng, s1, find_fn(prog, 'Arena', 'get_node_id_at'), [Ref(dcell, ()), Agg('NonZero', (S(pos, 'usize'),))]):
+            res['paths'] += 1
+            if o3.kind != 'return': continue
+            import iters
+            some, pay = iters.opt_parts(o3.value)
+            exp = z3.And(z3.ULE(pos, N), sel(livearr, pos, F_)) if N else F_
+            ob = [('C11.get_node_id_at_after_clone_from', some == exp)]
+            if pay is not None:
+                i_, s_ = iters.id_terms(pay)
+                ob.append(('C11.get_node_id_at_id_after_clone_from', z3.Implies(some, z3.And(i_ == pos, s_ == sel(src.stamp, pos, BV16(0))))))
+            check_obligations(eng, list(o3.state.pc), ob, prefixes, res, mv)
+        # C08: a removal in the restored arena touches only the removed node's payload
+        if N:
+            x = z3.BitVec('x', 64)
+            s2 = s.copy(); cx = z3.And(z3.UGE(x, 1), z3.ULE(x, N), sel(livearr, x))
+            if eng.feasible(s2, cx):
+                s2.pc.append(cx); s2.model = None
+                for o4 in call_all(eng, s2, find_fn(prog, 'NodeId', 'remove'), [A.id_of(x), Ref(dcell, ())]):
+                    res['paths'] += 1; res['steps'] += o4.state.steps
+                    if o4.kind != 'return':
+                        check_obligations(eng, list(o4.state.pc), [('C08.remove_after_clone_from_no_panic', F_)], prefixes, res, mv); continue
+                    V4 = View(o4.state.store[dcell])
+                    ob = []
+                    for i in range(N):
+                        ob.append(('C08.payload_kept_after_clone_from_and_remove[%d]' % (i + 1),
+                                   z3.Implies(z3.And(src.live(i), x != i + 1), z3.And(V4.is_data[i], V4.data[i] == src.data[i])) if i < V4.N else F_))
+                    check_obligations(eng, list(o4.state.pc), ob, prefixes, res, mv)
+    if eng.solver.check() == z3.sat:
+        m = eng.solver.model()
+        res['samples'].append({'harness': 'dst.clone_from(&src)', 'own_clone_from_in_crate': has_own, 'dst': D.model_dict(m), 'src': A.model_dict(m)})
+    res['feas_queries'] = eng.nq; res['solver_time'] += eng.tq; res['wall'] = time.time() - t0
+    return res
+
+
+def confirm_clone_from(prop, v):
+    import replay
+    pre = v['pre']; dst = v['dst']; N = len(pre['slots'])
+    detail = {}; status = 'not_reproduced'
+    for profile in ('dev', 'release'):
+        l_dst = replay.construct_script(dst)
+        l_src = replay.construct_script(pre)
+        lines = l_dst + ['arena_new'] + l_src
+        nd = len(l_dst) - 1; ns = len(lines) - 1
+        lines += ['clone_from 0 1', 'arena_eq 0 1', 'arena_select 0', 'dump', 'arena_select 1', 'dump', 'arena_select 0']
+        k0 = len(lines)
+        for p in range(1, N + 2): lines.append('get_node_id_at %d' % p)
+        live = [i + 1 for i, s_ in enumerate(pre['slots']) if s_['stamp'] >= 0]
+        if live:
+            lines += ['ghost_at w %d' % live[0], 'remove w', 'dump']
+        res = replay.run_script(lines, profile)
+        def dump_at(k):
+            r = res.get(k)
+            try: return replay.parse_dump(r[1]) if r and r[0] == 'OK' else None
+            except ValueError: return None
+        ok = bool(dump_at(nd)) and replay.same_state(dump_at(nd), dst) and bool(dump_at(ns)) and replay.same_state(dump_at(ns), pre)
+        bad = []
+        if res.get(ns + 1, ('', ''))[0] != 'OK': bad.append('clone_from: %s' % (res.get(ns + 1),))
+        if res.get(ns + 2, ('', ''))[1].strip() != 'true': bad.append('dst == src after clone_from: %s' % (res.get(ns + 2),))
+        d0, d1 = dump_at(ns + 4), dump_at(ns + 6)
+        if not (d0 and replay.same_state(d0, pre)): bad.append('dst differs from the source state after clone_from')
+        if not (d1 and replay.same_state(d1, pre)): bad.append('source changed by clone_from')
+        for p in range(1, N + 2):
+            r = res.get(k0 + p - 1)
+            exp = 'NodeId{index1:%d,stamp:NodeStamp(%d)}' % (p, pre['slots'][p - 1]['stamp']) if (p <= N and pre['slots'][p - 1]['stamp'] >= 0) else 'None'
+            if r is None or r[0] != 'OK' or r[1].strip() != exp: bad.append('get_node_id_at %d on dst: %s (expected %s)' % (p, r, exp))
+        if live:
+            r = res.get(len(lines) - 2)
+            dl = dump_at(len(lines) - 1)
+            if r is None or r[0] != 'OK': bad.append('remove after clone_from: %s' % (r,))
+            elif dl:
+                for i, s_ in enumerate(pre['slots']):
+                    if s_['stamp'] >= 0 and i + 1 != live[0] and (dl['slots'][i].get('data') != s_.get('data') or not dl['slots'][i].get('is_data')):
+                        bad.append('payload of live node %d destroyed by removing node %d after clone_from' % (i + 1, live[0]))
+        detail[profile] = {'pre_ok': ok, 'bad': bad[:8]}
+        detail.setdefault('script', lines)
+        if not ok:
+            if status == 'not_reproduced': status = 'unreachable'
+        elif bad: status = 'reproduced'
+    return status, detail
